@@ -18,16 +18,10 @@ use crate::verif_std as vs;
 use crate::verif_std::{vcheck, vcover};
 
 fn gate_body(kind: u8, cov_both: fn(bool)) {
-    gate_body_with(kind, cov_both, None)
-}
-fn gate_body_with(kind: u8, cov_both: fn(bool), fixed: Option<k::Held>) {
     // validator 0 is the subject (stake 1), validator 1 the node itself
     let fx = fixture(&[1, 9], 1);
     let (mut pool, _ch) = mk_pool(&fx);
-    let held = match fixed {
-        Some(h) => h,
-        None => k::any_held(),
-    };
+    let held = k::any_held();
     let hash = 1 + vs::any_below(2);
     k::install(pool.slot_state(Slot::new(k::SLOT)), &fx, 0, &held);
 
@@ -88,12 +82,3 @@ g!(c04_gate_skip, 2, cov_both);
 g!(c04_gate_sfallback, 3, cov_none);
 g!(c04_gate_final, 4, cov_none);
 
-fn cov_any(_b: bool) {}
-#[cfg_attr(kani, kani::proof)]
-#[cfg_attr(kani, kani::stub(crate::crypto::aggsig::SecretKey::sign, crate::consensus::kani_fix::sign_stub))]
-#[cfg_attr(kani, kani::stub(crate::consensus::pool::slot_state::SlotState::add_vote, crate::consensus::pool::slot_state::kani_c04::cut::add_vote))]
-#[cfg_attr(kani, kani::unwind(4))]
-#[cfg_attr(verif_replay, test)]
-fn c04_gx_probe() {
-    gate_body_with(1, cov_any, Some(k::Held { notar: 1, nf_a: false, nf_b: false, skip: false, sf: false, fin: true }))
-}
